@@ -145,6 +145,8 @@ var letsOK = []string{"let x = 5", "let lim = 2", "let s = 'a;b'", "let x = x + 
 var letsBad = []string{"let q = nosuch", "let = 5", "let w = (", "let a.b = 1", "let v = `x`", "let u = T.a", "let 5 = x"}
 var queries = []string{"T | where a == x | take lim", "T | count", "T | where s == 'a;b' // c;d\n| take 1", "T\n| project a, b\n| sort by a", "U | join (T) on k | where x > 1", "T | extend z = y * 2",
 	"T | where a == -y", "T | top lim by a", "T | where t and a in (x, y)", "T | summarize n = count() by k | where n > x", "T | where b == \"q;\\\"\"", "`T;1` | take 1", "T | extend a+x", "T | where c == s", "T | project s, z", "T | where a == x | take lim",
+	// tables whose names begin like the let keyword
+	"let_events | count", "let2 | take 1", "letters | where a == x", "Let | count", "`let` | take lim", "let_ | project a", "lets\n| count",
 	// quoted names and strings that end in a backslash right before the semicolon
 	"T | project `a\\`", "`t\\` | count", "T | where s == 'a\\\\'", "T | where s == \"q\\\\\" and `b\\` > x", "T | extend `c\\\\` = 'd\\\\'"}
 var invalid = []string{"T | where (", "T | bogus", "!", "T | take 1.5", "T | where 'unterminated\n", "T U", "T | where a ==", "| count", "T | join (U) on"}
@@ -235,6 +237,37 @@ func repeatScript(rng *rand.Rand) *Script {
 	return s
 }
 
+// stringScript: lets bound to strings whose white space matters (runs of
+// blanks, tabs, no-break spaces, leading and trailing blanks, line breaks
+// inside the literal), each followed, sooner or later, by queries that use them.
+func stringScript(rng *rand.Rand) *Script {
+	s := &Script{}
+	add := func(st string) {
+		s.Stmts = append(s.Stmts, st)
+		s.Seps = append(s.Seps, seps[rng.Intn(len(seps))])
+	}
+	bodies := []string{"a  b", "a\tb", " lead", "trail ", "x\u00a0y", "x\u00a0 \u00a0y", "two  \t  kinds", "\u2003em", "a\u2028b", "   ", "\t", "a b", "//not a comment", "semi ; colon  ;  twice"}
+	names := []string{"s", "t1", "u", "w"}
+	k := 1 + rng.Intn(3)
+	for i := 0; i < k; i++ {
+		q := []string{"'", "\""}[rng.Intn(2)]
+		add("let " + names[i] + " = " + q + bodies[rng.Intn(len(bodies))] + q)
+		if rng.Intn(3) == 0 {
+			add("let " + names[i] + "2 = strcat(" + names[i] + ", " + q + bodies[rng.Intn(len(bodies))] + q + ")")
+		}
+		if rng.Intn(3) == 0 {
+			add(queries[rng.Intn(len(queries))])
+		}
+	}
+	for i := 0; i < k; i++ {
+		add("T | where c == " + names[i] + " | extend e = strcat(" + names[i] + ", '  ')")
+	}
+	if rng.Intn(2) == 0 {
+		s.Seps[len(s.Seps)-1] = ""
+	}
+	return s
+}
+
 // longScript: hundreds of statements, most of them spread over several lines,
 // several times the size of any line or read buffer.
 func longScript(rng *rand.Rand) *Script {
@@ -245,6 +278,17 @@ func longScript(rng *rand.Rand) *Script {
 		switch r := rng.Intn(12); {
 		case r < 2:
 			st = fmt.Sprintf("let v%d = %d", rng.Intn(6), i)
+			if i > 6 {
+				switch rng.Intn(3) {
+				case 0: // from another binding (which may be redefined later)
+					st = fmt.Sprintf("let v%d = v%d + %d", rng.Intn(6), rng.Intn(6), i)
+				case 1: // from its own old value
+					n := rng.Intn(6)
+					st = fmt.Sprintf("let v%d = v%d * 2", n, n)
+				}
+			}
+		case r < 4 && i > 6:
+			st = fmt.Sprintf("T | where a == v%d | take v%d", rng.Intn(6), rng.Intn(6))
 		case r < 3:
 			st = invalid[rng.Intn(len(invalid))]
 		case r < 5:
@@ -272,6 +316,7 @@ func genScript(rng *rand.Rand) *Script {
 		if rng.Intn(4) == 0 {
 			return longScript(rng)
 		}
+		return stringScript(rng)
 	}
 	n := 1 + rng.Intn(6)
 	s := &Script{}
